@@ -417,6 +417,10 @@ def run(ctx, tier):
     results += refcell.no_reborrow(ctx, 'C11.no-reborrow')
     import c02
     results += c02.alternate_rule(ctx, rule='C11.alternate')
+    import c15, c12
+    results += c15.legacy_fallback(ctx, rule='C11.legacy-conversion')
+    # after a torn header write the damaged page is still in the file: nothing but the validating selection may look at it
+    results += c12.header_views_confined(ctx, rule='C11.header-views-confined')
     return dict(
         results=results, stats=dict(ctx.stats),
         explanation=(
